@@ -95,7 +95,7 @@ def evaluate(case):
     return Result(fails, labels, nonempty >= 2, inconclusive, summary, subcases=calls)
 
 
-PRES = ["list", "list", "dict-str", "dict-str", "array", "dict-int", "names", "names-array"]
+PRES = ["list", "list", "dict-str", "dict-str", "array", "dict-int", "names", "names-array", "dict-mixed"]
 
 
 @st.composite
